@@ -107,13 +107,19 @@ type c06Actor struct {
 	preStarts  atomic.Int64
 	racedStops atomic.Int64 // PostStop entries that found senders still active
 	busyStops  atomic.Int64 // PostStop entries from another goroutine that found the word held by a Receive
+	stopsThisInc atomic.Int64
 }
 
 func (a *c06Actor) PreStart(*Context) error {
 	gid := verifrt.GoID()
 	a.log.add(a.name, c06PreStartEnter, gid, "")
 	a.preStarts.Add(1)
-	runtime.Gosched()
+	a.stopsThisInc.Store(0)
+	// a PreStart of realistic length
+	t0 := time.Now()
+	for time.Since(t0) < 30*time.Microsecond {
+		runtime.Gosched()
+	}
 	a.log.add(a.name, c06PreStartExit, gid, "")
 	return nil
 }
@@ -124,6 +130,11 @@ func (a *c06Actor) PostStop(*Context) error {
 	a.postStops.Add(1)
 	if a.log.sendersActive.Load() > 0 {
 		a.racedStops.Add(1)
+	}
+	if n := a.stopsThisInc.Add(1); n > 1 {
+		a.log.mu.Lock()
+		a.log.overlaps = append(a.log.overlaps, c06Overlap{Actor: a.name, Entering: "poststop", Holder: fmt.Sprintf("poststop-number-%d-of-this-incarnation", n), EnterGid: gid, Seq: seq, Stack: verifrt.Stack()})
+		a.log.mu.Unlock()
 	}
 	tok := gid<<2 | 2
 	owned := a.word.CompareAndSwap(0, tok)
